@@ -358,9 +358,10 @@ class Job(Resource):
                 self.failure_status = JobFailureStatus.DEPENDENCY
                 self._readyEvent.set()
 
-        if self.unsatisfied == 0:
+        if self.unsatisfied == 0 and self.state.notstarted():
             logger.info("Job %s is ready to run", self)
-            # We are ready
+            # We are ready (a job that is already running or finished
+            # must not be moved back to READY by a late notification)
             self.state = JobState.READY
             self._readyEvent.set()
 
